@@ -448,8 +448,10 @@ class Recfile(object):
 
         if self.is_ascii:
             # for ascii, make sure the data are in native format.  This greatly
-            # simplifies the C code
-            to_native_inplace(dataview)
+            # simplifies the C code.  A copy is made only if a conversion is
+            # needed, so the input is never modified
+            native_dtype = dataview.dtype.newbyteorder("=")
+            dataview = dataview.astype(native_dtype, copy=False)
 
         self.robj.Write(dataview)
 
